@@ -190,7 +190,7 @@ NSHARD = 16
 def plan(tier):
     specs = [{'kind': 'grid', 'shard': i} for i in range(NSHARD)]
     specs += [{'kind': 'cells', 'shard': 20 + i, 'via': via, 'part': i % 2} for i, via in enumerate(['cell', 'cell', 'literal', 'literal'])]
-    specs += [{'kind': 'hyp', 'shard': 100 + i, 'examples': 4000 if tier == 'quick' else 40000} for i in range(NSHARD)]
+    specs += [{'kind': 'hyp', 'shard': 100 + i, 'examples': 4000 if tier == 'quick' else 100000} for i in range(NSHARD)]
     return specs
 
 
